@@ -17,7 +17,9 @@ git -C /repo worktree add -q --detach $WT HEAD || exit 2
 # (later fix: commits move lines; fall back to reduced context, then to patch(1) with fuzz)
 git -C $WT apply "$PATCH" 2>/dev/null || git -C $WT apply -C1 "$PATCH" 2>/dev/null || patch -s -p1 -F3 -d $WT < "$PATCH" || { echo "PATCH-DOES-NOT-APPLY $PATCH"; exit 2; }
 mkdir -p $SIMD $OUTD
-rsync -a /verif/sim/ $SIMD/
+# sources from the committed state of /verif (work in progress may not compile), build cache from the live tree
+git -C /verif archive HEAD sim | tar -x -C $SIMD --strip-components=1
+rsync -a /verif/sim/target $SIMD/ 2>/dev/null
 sed -i "s|path = \"/repo\"|path = \"$WT\"|" $SIMD/Cargo.toml
 if [ "${MIRI:-0}" = 1 ]; then
   mkdir -p $MIRID; rsync -a --exclude target /verif/sim-miri/ $MIRID/
